@@ -560,6 +560,16 @@ class Ctx:
                 self.discharged.append(t)
             else:
                 self.proof_breaks.append({"theorem": t, "errors": [str(a)]})
+        if self.tier == "thorough":
+            # independent re-check of the compiled property modules (and everything they import) by leanchecker
+            for m in mods:
+                with Lock("lean"):
+                    r = sh(["lake", "env", "leanchecker", m], cwd=LEAN)
+                out = (r.stdout or "") + (r.stderr or "")
+                ok = r.returncode == 0 and "exception" not in out and "error" not in out.lower()
+                self.notes.append("leanchecker %s: %s" % (m, "ok" if ok else "FAILED"))
+                if not ok:
+                    self.proof_breaks.append({"module": m, "errors": ["leanchecker: " + out[-600:]]})
         return not self.proof_breaks
 
     # -- differential run ---------------------------------------------------------------------
